@@ -561,6 +561,7 @@ DFGRaddrig(int32 file_id, uint16 ref, DFGRrig *rig)
     int32  lutsize;
     int32  GroupID;
     uint16 ntref;
+    uint16 idref;
     uint8  GRtbuf[64]; /* local buffer for reading RIG info */
     int    ret_value = SUCCEED;
 
@@ -604,20 +605,25 @@ DFGRaddrig(int32 file_id, uint16 ref, DFGRrig *rig)
         UINT16ENCODE(p, rig->datadesc[IMAGE].compr.tag);
         UINT16ENCODE(p, rig->datadesc[IMAGE].compr.ref);
 
-        if (Hputelement(file_id, DFTAG_ID, ref, GRtbuf, (int32)(p - GRtbuf)) == FAIL)
+        /* as for the NT: an image description with the RIG's ref may belong to another image */
+        if ((idref = Htagnewref(file_id, DFTAG_ID)) == 0)
+            HGOTO_ERROR(DFE_NOREF, FAIL);
+        if (Hputelement(file_id, DFTAG_ID, idref, GRtbuf, (int32)(p - GRtbuf)) == FAIL)
             HGOTO_ERROR(DFE_PUTELEM, FAIL);
 
-        Ref.dims[IMAGE] = (int16)ref;
+        Ref.dims[IMAGE] = (int16)idref;
     }
     if (!Ref.lut) {            /* associated lut not written to this file */
         if (Grlutdata == NULL) /* no lut associated */
             HGOTO_ERROR(DFE_ARGS, FAIL);
         lutsize = Grwrite.datadesc[LUT].xdim * Grwrite.datadesc[LUT].ydim * Grwrite.datadesc[LUT].ncomponents;
-        if (Hputelement(file_id, DFTAG_LUT, ref, Grlutdata, (int32)lutsize) == FAIL)
+        if ((idref = Htagnewref(file_id, DFTAG_LUT)) == 0)
+            HGOTO_ERROR(DFE_NOREF, FAIL);
+        if (Hputelement(file_id, DFTAG_LUT, idref, Grlutdata, (int32)lutsize) == FAIL)
             HGOTO_ERROR(DFE_PUTELEM, FAIL);
         rig->data[LUT].tag = DFTAG_LUT;
-        rig->data[LUT].ref = ref;
-        Ref.lut            = (int)ref;
+        rig->data[LUT].ref = idref;
+        Ref.lut            = (int)idref;
     }
 
     if (Ref.dims[LUT] == 0) {
@@ -631,9 +637,11 @@ DFGRaddrig(int32 file_id, uint16 ref, DFGRrig *rig)
         INT16ENCODE(p, rig->datadesc[LUT].interlace);
         UINT16ENCODE(p, rig->datadesc[LUT].compr.tag);
         UINT16ENCODE(p, rig->datadesc[LUT].compr.ref);
-        if (Hputelement(file_id, DFTAG_LD, ref, GRtbuf, (int32)(p - GRtbuf)) == FAIL)
+        if ((idref = Htagnewref(file_id, DFTAG_LD)) == 0)
+            HGOTO_ERROR(DFE_NOREF, FAIL);
+        if (Hputelement(file_id, DFTAG_LD, idref, GRtbuf, (int32)(p - GRtbuf)) == FAIL)
             HGOTO_ERROR(DFE_PUTELEM, FAIL);
-        Ref.dims[LUT] = (int16)ref;
+        Ref.dims[LUT] = (int16)idref;
     }
 
     /* prepare to start writing rig */
